@@ -53,6 +53,7 @@ mod misc {
                     spare
                 } else { $v.spare_capacity_mut() };
                 if spare.len() != cap - len { notes.push(format!("{head}: capacity: the spare part has {} slots, capacity - len = {}", spare.len(), cap - len)); }
+                if cap < 100_000 { super::gaps::kline(format!("K sp {len} {cap} {}", spare.len())); }
                 let j = k.min(spare.len());
                 for i in 0..j { spare[i].write(D(fresh[i])); born.push(fresh[i]); want.push(fresh[i]); }
                 unsafe { $v.set_len(len + j) };
@@ -89,6 +90,7 @@ mod misc {
                     spare
                 } else { v.spare_capacity_mut() };
                 if spare.len() != cap - len { notes.push(format!("{head}: capacity: the spare part has {} slots, capacity - len = {}", spare.len(), cap - len)); }
+                if cap < 100_000 { super::gaps::kline(format!("K sp {len} {cap} {}", spare.len())); }
                 let j = k.min(spare.len());
                 let sl = spare.len();
                 for i in 0..j { spare[sl - j + i].write(D(fresh[i])); born.push(fresh[i]); }
@@ -502,7 +504,9 @@ mod misc {
                         let mut v: BumpVec<[D; $N], &Bump> = BumpVec::with_capacity_in(n + extra, &bump);
                         for i in 0..n { v.push(mk(i)); }
                         let cap = v.capacity();
+                        let len_before_flatten = v.len();
                         let mut f = v.into_flattened();
+                        if $N > 0 && cap != usize::MAX { super::gaps::kline(format!("K fl {} {cap} {} {len_before_flatten} {}", $N, f.capacity(), f.len())); }
                         check("into_flattened", ids(&f), &want, &mut notes);
                         if f.capacity() > cap * $N || f.capacity() < f.len() { notes.push(format!("{head}: capacity: {} after flattening a vector of capacity {cap} and length {}", f.capacity(), f.len())); }
                         let mut w = want.clone();
@@ -513,7 +517,9 @@ mod misc {
                         let mut v: FixedBumpVec<[D; $N]> = FixedBumpVec::with_capacity_in(n + extra, &bump);
                         for i in 0..n { v.push(mk(i)); }
                         let cap = v.capacity();
+                        let len_before_flatten = v.len();
                         let mut f = v.into_flattened();
+                        if $N > 0 && cap != usize::MAX { super::gaps::kline(format!("K fl {} {cap} {} {len_before_flatten} {}", $N, f.capacity(), f.len())); }
                         check("into_flattened", ids(&f), &want, &mut notes);
                         if f.capacity() > cap * $N || f.capacity() < f.len() { notes.push(format!("{head}: capacity: {} after flattening a vector of capacity {cap} and length {}", f.capacity(), f.len())); }
                         let mut w = want.clone();
@@ -525,7 +531,9 @@ mod misc {
                         let mut v: MutBumpVec<[D; $N], &mut Bump> = MutBumpVec::with_capacity_in(n + extra, &mut bump);
                         for i in 0..n { v.push(mk(i)); }
                         let cap = v.capacity();
+                        let len_before_flatten = v.len();
                         let mut f = v.into_flattened();
+                        if $N > 0 && cap != usize::MAX { super::gaps::kline(format!("K fl {} {cap} {} {len_before_flatten} {}", $N, f.capacity(), f.len())); }
                         check("into_flattened", ids(&f), &want, &mut notes);
                         if f.capacity() > cap * $N || f.capacity() < f.len() { notes.push(format!("{head}: capacity: {} after flattening a vector of capacity {cap} and length {}", f.capacity(), f.len())); }
                         let mut w = want.clone();
@@ -536,7 +544,9 @@ mod misc {
                         let mut v: MutBumpVecRev<[D; $N], &mut Bump> = MutBumpVecRev::with_capacity_in(n + extra, &mut bump);
                         for i in (0..n).rev() { v.push(mk(i)); }
                         let cap = v.capacity();
+                        let len_before_flatten = v.len();
                         let mut f = v.into_flattened();
+                        if $N > 0 && cap != usize::MAX { super::gaps::kline(format!("K fl {} {cap} {} {len_before_flatten} {}", $N, f.capacity(), f.len())); }
                         check("into_flattened", ids(&f), &want, &mut notes);
                         if f.capacity() > cap * $N || f.capacity() < f.len() { notes.push(format!("{head}: capacity: {} after flattening a vector of capacity {cap} and length {}", f.capacity(), f.len())); }
                         let mut w = want.clone();
